@@ -148,7 +148,13 @@ func (s *IndexedStore) dataKey(id string) string {
 //
 // As such to list all handlers in ID sorted order use the /<indexesPrefix>/id/ directory.
 func (s *IndexedStore) indexKey(index, value string) string {
-	return path.Join(s.indexesPrefix, index, value)
+	// The value is appended as is, cleaning it as a path would move values like "." or ".." out of the index directory.
+	return s.indexPrefix(index) + value
+}
+
+// Create the prefix shared by all keys of a given index.
+func (s *IndexedStore) indexPrefix(index string) string {
+	return path.Join(s.indexesPrefix, index) + "/"
 }
 
 func (s *IndexedStore) Get(id string) (o BinaryObject, err error) {
@@ -329,7 +335,7 @@ func (s *IndexedStore) ReverseListTx(tx ReadOnlyTx, index, pattern string, offse
 
 func (s *IndexedStore) list(tx ReadOperator, index, pattern string, offset, limit int, reverse bool) ([]BinaryObject, error) {
 	// List all object ids sorted by index
-	ids, err := tx.List(s.indexKey(index, "") + "/")
+	ids, err := tx.List(s.indexPrefix(index))
 	if err != nil {
 		return nil, err
 	}
@@ -415,7 +421,7 @@ func (s *IndexedStore) RebuildTx(tx Tx) error {
 
 // deleteIndex deletes all indexes entries.
 func (s *IndexedStore) deleteIndex(tx Tx, index string) error {
-	entries, err := tx.List(s.indexKey(index, "") + "/")
+	entries, err := tx.List(s.indexPrefix(index))
 	if err != nil {
 		return err
 	}
